@@ -244,6 +244,9 @@ class Layout:
                 out += self.wf(v.fields[f['n']], f['t'], depth + 1)
         elif isinstance(v, PtrV):
             out.append(v.ref >= 0)
+        elif isinstance(v, MapV):
+            if isinstance(v.isnil, z3.ExprRef) and not z3.is_false(v.isnil):
+                out.append(z3.Implies(v.isnil, v.dom == z3.K(v.dom.sort().domain(), z3.BoolVal(False))))     # a nil map has no keys
         elif isinstance(v, IfaceV):
             out.append(v.ref >= 0)
         return out
